@@ -172,7 +172,7 @@ func c04SchedPhase(s *c04State) {
 	}
 	nsmall, budget, nbig, samples := 70, 250, 50, 60
 	if c.Tier == "thorough" {
-		nsmall, budget, nbig, samples = 700, 4000, 600, 400
+		nsmall, budget, nbig, samples = 500, 3000, 400, 300
 	}
 	exhausted := 0
 	for pi := 0; pi < nsmall; pi++ {
